@@ -18,6 +18,7 @@ var cmds = map[string]func([]string) error{
 	"c05":       props.C05,
 	"c14":       props.C14,
 	"c16":       props.C16,
+	"c18td":     props.C18TD,
 	"c19":       props.C19,
 	"c20":       props.C20,
 	"scen":      props.Scen,
